@@ -1181,6 +1181,13 @@ func (t *Table) MergeCellsRange(startRow, endRow, startCol, endCol int) error {
 		return fmt.Errorf("行索引范围无效：[%d, %d]", startRow, endRow)
 	}
 
+	// 先验证所有行的列范围，保证返回错误时表格保持不变
+	for i := startRow; i <= endRow; i++ {
+		if startCol < 0 || startCol > endCol || endCol >= len(t.Rows[i].Cells) {
+			return fmt.Errorf("第%d行列索引范围无效：[%d, %d]", i, startCol, endCol)
+		}
+	}
+
 	// 先水平合并每一行
 	for i := startRow; i <= endRow; i++ {
 		if startCol >= len(t.Rows[i].Cells) || endCol >= len(t.Rows[i].Cells) {
